@@ -72,11 +72,38 @@ def _both_reprs(name, fn):
     """Rules about the arithmetic representation are decided for the 64-bit (K0) AND the 32-bit (K3) limb layout on every
     run, also in the quick tier: the pinned suite builds only one of them, so a slip in the other is exactly what the
     tests cannot see.  K1 / K2 share K0's layout and add nothing; K3 is already covered when the run reaches it."""
+    def cached(c):
+        # these rules depend on the tree only: the 17 checks of one run share the result through the work directory, keyed by
+        # the digest of /repo's sources (the first check of a run on a changed tree computes it; nothing survives a change)
+        import json
+        import os
+        import core
+        p = os.path.join(sxlib.WORK, "rule.%s.%s.%s.json" % (name, c, sxlib.tree_digest()))
+        if os.path.exists(p):
+            try:
+                d = json.load(open(p))
+                return [core.Obligation(o["rule"], o["id"], o["loc"], o["function"], o["obligation"], o["holds"], o["detail"],
+                                        props=set(o["props"]) if o.get("props") is not None else None) for o in d["obs"]], d["st"]
+            except (ValueError, KeyError):
+                pass
+        obs, st = fn(c)
+        os.makedirs(sxlib.WORK, exist_ok=True)
+        for f_ in os.listdir(sxlib.WORK):
+            if f_.startswith("rule.%s." % name) and sxlib.tree_digest() not in f_:
+                try:
+                    os.remove(os.path.join(sxlib.WORK, f_))
+                except OSError:
+                    pass
+        tmp = p + ".tmp%d" % os.getpid()
+        json.dump({"obs": [dict(o.as_dict(), props=sorted(o.props) if o.props is not None else None) for o in obs], "st": st}, open(tmp, "w"))
+        os.replace(tmp, p)
+        return obs, st
+
     def run(cfg, tier):
         if cfg != "K0":
             return [], {}
-        obs, st = _memo(name, "K0", fn)
-        obs3, st3 = _memo(name, "K3", fn)
+        obs, st = _memo(name, "K0", cached)
+        obs3, st3 = _memo(name, "K3", cached)
         for o in obs3:
             o.oid = o.oid + "/32bit"
             o.text = "[10x26 field, 8x32 scalar] " + o.text
